@@ -1,5 +1,8 @@
 import Restli.Model.Ror2Reader
 import Restli.Model.TreeReader
+import Restli.Model.Norm
+import Restli.Proofs.RoundTrip3
+import Restli.Proofs.RoundTripJson
 /-! # C13 — schema default values
 
 `populateDefaults` is the model of the generated `populateLocalDefaultValues`, which every
@@ -148,6 +151,48 @@ theorem c13_finishRecord_top_ok_no_missing (env : Env) (tr : Tracker) (scope : L
     · next hne =>
       cases h
       simpa using hne
+
+/-! ## the default of a record, union, array or map field is its literal read as a document
+
+The generated `populateLocalDefaultValues` obtains such a default by handing the schema's JSON
+literal to the field type's own unmarshaler, so the value held is what the JSON reader returns
+for that document — with the own defaults of every record inside it filled in (`norm`). The
+schema the model works with is `expandDefaults` of the schema as written (Driver/Codec.lean),
+so a generator that stores the literal any other way (a zero record for `{}`, say) disagrees
+with the model on the first document that omits the field. -/
+
+/-- reading the document a default literal `d` denotes yields `norm d`, nothing reported missing:
+for every schema, field type, literal and nesting depth (an instance of the JSON round trip) -/
+theorem c13_default_literal_is_read_as_a_document (env : Env) (F : FloatLaws) (C : ConvLaws)
+    (hS : schemaOKb env = true) (ign f : Nat) (scopeW : List Bytes) (scopeR : List Seg) (top : Bool)
+    (ty : Ty) (d : Value) (doc : Doc) (hv : ValOK d)
+    (henc : encode { env := env, excl := .empty, sortKeys := true } f scopeW ty d = .ok doc) :
+    treeRead { env := env, tracker := { excl := .empty, ignore := ign } } top scopeR ty (treeOf jsonEnc doc) =
+      .ok (norm env f ty d) [] :=
+  json_roundtrip_tree env F C (schemaOK_of_check env hS) ign f scopeW scopeR top ty d doc hv henc
+
+/-- `Paging` has defaults of its own; `Query` has a `Paging`-typed field whose default is `{}` -/
+def envNested : Env :=
+  [("Paging", .record [] [{ name := [99], ty := .prim .i32, optional := false, dflt := some (.i32 10) },
+                          { name := [115], ty := .prim .i32, optional := true, dflt := some (.i32 0) }]),
+   ("Query", .record [] [{ name := [112], ty := .ref "Paging", optional := false, dflt := some (.record []) }])]
+
+/-- the literal `{}` of type `Paging` denotes the record with `Paging`'s own defaults … -/
+example : norm envNested literalFuel (.ref "Paging") (.record []) = .record [([99], .i32 10), ([115], .i32 0)] := by rfl
+
+/-- … which is what `Query` holds as the default of `p` once the schema is read like the
+generated code reads it … -/
+theorem c13_empty_object_default_carries_nested_defaults :
+    (expandDefaults envNested).find "Query" =
+      some (.record [] [{ name := [112], ty := .ref "Paging", optional := false,
+                          dflt := some (.record [([99], .i32 10), ([115], .i32 0)]) }]) := by rfl
+
+/-- … and what decoding `()` as `Query` puts into `p` -/
+theorem c13_omitted_record_field_gets_expanded_default :
+    (match unmarshalRor2 { env := expandDefaults envNested, tracker := { excl := .empty, ignore := 0 }, plus := false }
+        (.ref "Query") [40, 41] with
+      | .ok v _ => some v | _ => none) =
+      some (.record [([112], .record [([99], .i32 10), ([115], .i32 0)])]) := by rfl
 
 /-! ## inherited defaults: the full statement fails on the current code -/
 
